@@ -215,7 +215,7 @@ impl Sim for SimF {
         ]
     }
     fn default_runs(&self) -> (u64, u64) {
-        (8_000, 400_000)
+        (200_000, 6_000_000)
     }
 
     fn plan(&self, rng: &mut Rng, sub: usize) -> ScenarioF {
